@@ -14,6 +14,7 @@ CONSTANTS Depth,
           GenDefaults,  \* default values explored (subset of Vals)
           GenLiteOmit,  \* suppression windows explored for the LiteParams
           GenFixedSub,  \* the subscriptions of the connections that do not activate / deactivate themselves
+          GenFullKinds, \* operation kinds of OpsOf used for the FullParams
           GenExtra      \* operation groups added to the alphabet: subset of {"At", "Nest", "Deact", "Untouched"}
 VARIABLE hist
 
@@ -23,11 +24,12 @@ Obs == [c |-> [p \in Params |-> CV(cache'[p])], w |-> [p \in Params |-> View(cac
 WritePairs == {<<v, v>> : v \in Vals} \cup {<<"a", "b">>}
 Alphabet ==
     UNION {{op \in OpsOf(p) : /\ (op.a = "Write" => <<op.x, op.y>> \in WritePairs)
-                              /\ op.a # "AssignInvalid"
+                              /\ op.a # "AssignInvalid" /\ op.a \in GenFullKinds
                               /\ (op.a = "Untouched" => "Untouched" \in GenExtra)}
            : p \in FullParams} \cup
     UNION {{op \in AtOps(p) : "At" \in GenExtra /\ op.x \in {"a", "e1"}} : p \in FullParams} \cup
-    UNION {{op \in NestOps(p) : "Nest" \in GenExtra /\ op.x \in {"a", "e1"}} : p \in FullParams} \cup
+    UNION {{op \in NestOps(p) : \/ "Nest" \in GenExtra /\ op.a = "ReadNested" /\ op.x \in {"a", "e1"}
+                               \/ "NestInv" \in GenExtra /\ op.x \in Invs} : p \in FullParams} \cup
     {op \in DeactOps : "Deact" \in GenExtra /\ op.p \in GenConns} \cup
     UNION {{op \in OpsOf(p) : (op.a = "ReadOk" /\ op.x = "a") \/ (op.a = "ReadRaise" /\ op.x = "e1" /\ "LiteErr" \in GenExtra)}
            : p \in LiteParams} \cup
